@@ -101,6 +101,29 @@ fn check_value(e: En, code: Code, v: u64, ci: usize, _ctx_seed: u64, lm: u128, r
                 || format!("{} w={} wop={} pre={} kind={} rop={}", kvf(), ww.name(), codeop_to_string(wop), pre, kind.name(), codeop_to_string(&rop)),
             );
         }
+        // (d) the same read when the codeword is the very last thing of a strict stream (no padding
+        // beyond the reader's word boundary): look-ahead past the end must not change what is consumed
+        let rw = kind.word_bits();
+        let need = pre + mlen as usize;
+        let mut tight = delivered.clone();
+        tight.resize(need.div_ceil(rw) * rw / 8, 0);
+        let sbe = RBackend::STRICT[(ci / 3 + mi) % RBackend::STRICT.len()];
+        let mut r = make_reader(RCfg { e, kind, be: sbe }, &tight);
+        let _ = guard(|| r.r.skip_bits(pre));
+        let val = guard(|| r.r.read_code(rop));
+        let p = guard(|| r.r.bit_pos().unwrap());
+        rep.eval(1);
+        let consumed = match p {
+            Out::Ok(p) => p as i128 - pre as i128,
+            _ => -1,
+        };
+        if val != Out::Ok(v) || consumed != mlen as i128 {
+            rep.violation(
+                &format!("{}|read-consumed-at-tail|{}", code.family(), if val == Out::Ok(v) { "wrong-length".to_string() } else { format!("value-{}", val.class()) }),
+                || format!("{} on {} over {} (stream ends with the codeword) read {} and consumed {} bits; written {} with {} bits", rop.name(), kind.name(), sbe.name(), val.show(), consumed, v, mlen),
+                || format!("{} w={} wop={} pre={} kind={} rop={}", kvf(), ww.name(), codeop_to_string(wop), pre, kind.name(), codeop_to_string(&rop)),
+            );
+        }
     }
     if ci % 5003 == 0 {
         rep.sample(|| format!("{} {}: len {} = lib {:?}", code.name(), v, mlen, lib_lens(code, v).iter().map(|(n, o)| format!("{}={}", n, o.show())).collect::<Vec<_>>()));
